@@ -85,7 +85,16 @@ type c21Logger struct {
 	lines []string
 }
 
+func (l *c21Logger) Enabled(log.Level) bool          { return true }
+func (l *c21Logger) Debugf(format string, v ...any) { fmt.Printf("C21DBG D "+format+"\n", v...) }
+func (l *c21Logger) Debug(v ...any)                 { fmt.Println(append([]any{"C21DBG D"}, v...)...) }
+func (l *c21Logger) Infof(format string, v ...any)  { fmt.Printf("C21DBG I "+format+"\n", v...) }
+func (l *c21Logger) Info(v ...any)                  { fmt.Println(append([]any{"C21DBG I"}, v...)...) }
+func (l *c21Logger) Errorf(format string, v ...any) { fmt.Printf("C21DBG E "+format+"\n", v...) }
+func (l *c21Logger) Error(v ...any)                 { fmt.Println(append([]any{"C21DBG E"}, v...)...) }
+func (l *c21Logger) Warn(v ...any)                  { fmt.Println(append([]any{"C21DBG W"}, v...)...) }
 func (l *c21Logger) Warnf(format string, v ...any) {
+	fmt.Printf("C21DBG W "+format+"\n", v...)
 	if !strings.Contains(format, "failing") {
 		return
 	}
@@ -279,6 +288,35 @@ func c21RoundRobin(e *c21Env, rng *rand.Rand, cases int) {
 		}
 		rpid, names := e.spawn(size, WithRoutingStrategy(RoundRobinRouting))
 		rt := rpid.Actor().(*router)
+		key := fmt.Sprintf("rr/%d/%d/%d", size, preset, msgs)
+		// wrapAt = index of the message whose counter value is 0 (the wrap), or -1
+		wrapAt := -1
+		if uint64(preset)+uint64(msgs) >= 1<<32 {
+			wrapAt = int(uint64(1<<32) - uint64(preset) - 1)
+		}
+		idx := map[string]int{}
+		for i, n := range names {
+			idx[n] = i
+		}
+		// collect reads the ledger: seq[k] = routee of message k ("" unless handled exactly once)
+		collect := func(led *c21Ledger) (seq []string, shown []string) {
+			seq = make([]string, msgs)
+			for k := 0; k < msgs; k++ {
+				h := led.handlers(k)
+				switch {
+				case len(h) == 1:
+					seq[k] = h[0]
+					shown = append(shown, fmt.Sprint(idx[h[0]]))
+				case len(h) == 0:
+					shown = append(shown, "LOST")
+				default:
+					shown = append(shown, "DUP")
+				}
+			}
+			return seq, shown
+		}
+
+		// ======== A. through the router's mailbox (Broadcast) ========
 		atomic.StoreUint32(&rt.roundRobinNext, preset) // router idle: it answered GetRoutees and nothing else was sent
 		led := &c21Ledger{seen: map[int][]string{}}
 		mark := e.lg.mark()
@@ -286,41 +324,29 @@ func c21RoundRobin(e *c21Env, rng *rand.Rand, cases int) {
 			e.send(rpid, &c21Msg{led: led, id: k})
 		}
 		settled := e.settle(rpid, names, false)
-		counterAfter := atomic.LoadUint32(&rt.roundRobinNext)
-		routerFailures := e.lg.failures(rpid.Name(), mark)
-		e.stop(rpid)
-		key := fmt.Sprintf("rr/%d/%d/%d", size, preset, msgs)
 		if !settled {
+			e.stop(rpid)
 			r.Inconclusive("round-robin case %s: router or routee did not answer the completion barrier", key)
 			r.Case(key, false)
 			continue
 		}
-		// wrapAt = index of the message whose counter value is 0 (the wrap), or -1
-		wrapAt := -1
-		if uint64(preset)+uint64(msgs) >= 1<<32 {
-			wrapAt = int(uint64(1<<32) - uint64(preset) - 1)
-		}
-		seq := make([]string, msgs) // "" = not handled
-		idx := map[string]int{}
-		for i, n := range names {
-			idx[n] = i
-		}
-		var shown []string
-		for k := 0; k < msgs; k++ {
-			h := led.handlers(k)
-			switch {
-			case len(h) == 1:
-				seq[k] = h[0]
-				shown = append(shown, fmt.Sprint(idx[h[0]]))
-			case len(h) == 0:
-				shown = append(shown, "LOST")
-			default:
-				shown = append(shown, "DUP")
+		counterAfter := atomic.LoadUint32(&rt.roundRobinNext)
+		seq, shown := collect(led)
+		lost := 0
+		for k := range seq {
+			if len(led.handlers(k)) == 0 {
+				lost++
 			}
 		}
+		if lost > 0 {
+			// the recovered handler panic is reported asynchronously by the supervision
+			// path; wait for it only to name the violation, never to decide it
+			verifrt.WaitUntil(30*time.Second, func() bool { return len(e.lg.failures(rpid.Name(), mark)) > 0 })
+		}
+		routerFailures := e.lg.failures(rpid.Name(), mark)
 		detail := func(extra map[string]any) map[string]any {
-			d := map[string]any{"routees": size, "preset_counter": preset, "messages": msgs, "wrap_at_message": wrapAt, "counter_after": counterAfter,
-				"handled_by": strings.Join(shown, ","), "router_failures": routerFailures, "code": "actor/router.go routeByStrategy: routees[(int(n)-1)%len(routees)] over availableRoutees() (map iteration)"}
+			d := map[string]any{"path": "broadcast", "routees": size, "preset_counter": preset, "messages": msgs, "wrap_at_message": wrapAt, "counter_after": counterAfter,
+				"handled_by": strings.Join(shown, ","), "router_failures": routerFailures, "code": "actor/router.go routeByStrategy: routees[(int(n)-1)%len(routees)] with routees = availableRoutees() (iterates the routees map)"}
 			for k, v := range extra {
 				d[k] = v
 			}
@@ -331,20 +357,21 @@ func c21RoundRobin(e *c21Env, rng *rand.Rand, cases int) {
 			r.Violation("roundrobin-counter-not-advanced-per-message", detail(nil))
 		}
 		// 1. exactly once
-		lost := 0
+		panickedIdx := false
+		for _, f := range routerFailures {
+			if strings.Contains(f, "index out of range [-1]") {
+				panickedIdx = true
+			}
+		}
 		for k := 0; k < msgs; k++ {
 			h := led.handlers(k)
 			if len(h) == 0 {
-				lost++
-				panicked := false
-				for _, f := range routerFailures {
-					if strings.Contains(f, "index out of range [-1]") {
-						panicked = true
-					}
-				}
-				if k == wrapAt && panicked {
+				switch {
+				case k == wrapAt && panickedIdx:
 					r.Violation("roundrobin-wrap-panic:index -1", detail(map[string]any{"lost_message": k}))
-				} else {
+				case k == wrapAt:
+					r.Violation("roundrobin-wrap-message-lost", detail(map[string]any{"lost_message": k}))
+				default:
 					r.Violation("roundrobin-message-lost", detail(map[string]any{"lost_message": k}))
 				}
 			} else if len(h) > 1 {
@@ -354,32 +381,29 @@ func c21RoundRobin(e *c21Env, rng *rand.Rand, cases int) {
 		if lost == 0 && len(routerFailures) > 0 {
 			r.Violation("roundrobin-router-handler-failed", detail(nil))
 		}
-		// 2. cyclic order
+		// 2. cyclic order of the handler sequence (the router's own order is whatever
+		// the first n messages show). A sequence that is cyclic everywhere except
+		// across the wrap message is attributed to the wrap; anything else is not cyclic.
 		orderBad, wrapOrderBad := -1, -1
 		firstN := map[string]bool{}
 		for k := 0; k < msgs; k++ {
 			if seq[k] == "" {
 				continue
 			}
+			straddles := false
+			badPair := false
 			if k < size {
-				if firstN[seq[k]] {
-					// two of the first n messages on one routee
-					if wrapAt >= 0 && wrapAt <= k {
-						if wrapOrderBad < 0 {
-							wrapOrderBad = k
-						}
-					} else if orderBad < 0 {
-						orderBad = k
-					}
-				}
+				badPair = firstN[seq[k]]
 				firstN[seq[k]] = true
+				straddles = wrapAt >= 0 && wrapAt <= k
+			} else if seq[k-size] != "" {
+				badPair = seq[k] != seq[k-size]
+				straddles = wrapAt > k-size && wrapAt <= k
+			}
+			if !badPair {
 				continue
 			}
-			if seq[k-size] == "" || seq[k] == seq[k-size] {
-				continue
-			}
-			// the pair (k-size, k) straddles the wrap when the wrap message lies in (k-size, k]
-			if wrapAt > k-size && wrapAt <= k {
+			if straddles {
 				if wrapOrderBad < 0 {
 					wrapOrderBad = k
 				}
@@ -387,18 +411,99 @@ func c21RoundRobin(e *c21Env, rng *rand.Rand, cases int) {
 				orderBad = k
 			}
 		}
-		if orderBad >= 0 {
+		switch {
+		case orderBad >= 0:
 			r.Violation("roundrobin-order:not-cyclic", detail(map[string]any{"first_bad_message": orderBad}))
-		}
-		if wrapOrderBad >= 0 {
+		case wrapOrderBad >= 0:
 			r.Violation(fmt.Sprintf("roundrobin-wrap-order:routees=%d", size), detail(map[string]any{"first_bad_message": wrapOrderBad}))
 		}
+
+		// ======== B. routeByStrategy directly, with a fixed routee slice ========
+		// (isolates the index arithmetic from the order availableRoutees() happens to
+		// produce: expected routee of the k-th routed message = slice[(k-1) mod n])
+		fixed := make([]*PID, size)
+		okFixed := true
+		for i, n := range names {
+			pid, ok := e.sys.findRoutee(n)
+			if !ok {
+				okFixed = false
+			}
+			fixed[i] = pid
+		}
+		var shownB []string
+		if okFixed && rpid.IsRunning() {
+			atomic.StoreUint32(&rt.roundRobinNext, preset)
+			ledB := &c21Ledger{seen: map[int][]string{}}
+			panics := make([]string, msgs)
+			for k := 0; k < msgs; k++ {
+				m := &c21Msg{led: ledB, id: k}
+				rc := toReceiveContext(context.Background(), e.sys.NoSender(), rpid, NewBroadcast(m), true)
+				func() {
+					defer func() {
+						if rec := recover(); rec != nil {
+							panics[k] = fmt.Sprint(rec)
+						}
+					}()
+					rt.routeByStrategy(rc, m, fixed)
+				}()
+			}
+			if !e.settle(rpid, names, false) {
+				e.stop(rpid)
+				r.Inconclusive("round-robin case %s: routees did not answer the completion barrier (direct path)", key)
+				r.Case(key, false)
+				continue
+			}
+			var seqB []string
+			seqB, shownB = collect(ledB)
+			detailB := func(extra map[string]any) map[string]any {
+				d := map[string]any{"path": "routeByStrategy(fixed routee slice)", "routees": size, "preset_counter": preset, "messages": msgs, "wrap_at_message": wrapAt,
+					"handled_by": strings.Join(shownB, ","), "code": "actor/router.go routeByStrategy: routees[(int(n)-1)%len(routees)]"}
+				for k, v := range extra {
+					d[k] = v
+				}
+				return d
+			}
+			reportedIdx, reportedWrap := false, false
+			for k := 0; k < msgs; k++ {
+				if panics[k] != "" {
+					if k == wrapAt && strings.Contains(panics[k], "index out of range [-1]") {
+						r.Violation("roundrobin-wrap-panic:index -1", detailB(map[string]any{"message": k, "panic": panics[k]}))
+					} else {
+						r.Violation("roundrobin-panic", detailB(map[string]any{"message": k, "panic": panics[k]}))
+					}
+					continue
+				}
+				if seqB[k] == "" {
+					r.Violation("roundrobin-message-not-handled-once:direct", detailB(map[string]any{"message": k, "handlers": ledB.handlers(k)}))
+					continue
+				}
+				got := idx[seqB[k]]
+				// the k-th routed message overall is number preset+k+1: routee (preset+k) mod n,
+				// before and after the 32-bit counter wraps alike
+				want := int((uint64(preset) + uint64(k)) % uint64(size))
+				if got != want {
+					if wrapAt >= 0 && k >= wrapAt {
+						if !reportedWrap {
+							r.Violation(fmt.Sprintf("roundrobin-wrap-order:routees=%d", size), detailB(map[string]any{"message": k, "got_index": got, "want_index": want}))
+						}
+						reportedWrap = true
+					} else {
+						if !reportedIdx {
+							r.Violation("roundrobin-index:not-(k-1)-mod-n", detailB(map[string]any{"message": k, "got_index": got, "want_index": want}))
+						}
+						reportedIdx = true
+					}
+				}
+			}
+			r.Count("rr_direct_calls", int64(msgs))
+		}
+		e.stop(rpid)
 		if wrapAt >= 0 {
 			r.Count("rr_cases_crossing_2^32", 1)
 		}
 		r.Case(key, wrapAt >= 0 && size > 1)
 		if c < 2 || (wrapAt >= 0 && c < 12) {
-			r.Sample(map[string]any{"kind": "round-robin", "routees": size, "preset": preset, "wrap_at_message": wrapAt, "handled_by": strings.Join(shown, ",")})
+			r.Sample(map[string]any{"kind": "round-robin", "routees": size, "preset": preset, "wrap_at_message": wrapAt, "handled_by_broadcast_path": strings.Join(shown, ","), "handled_by_direct_path": strings.Join(shownB, ",")})
 		}
 	}
 }
